@@ -173,8 +173,14 @@ def prepare_workspace() -> dict:
     try:
         files = translate.render_all()
     except translate.TranslationError as e:
+        # the table translator gave up on this tree (reported as a broken obligation by the caller); the source tie is
+        # independent of it: still regenerate Gen/Src.lean, so that the source-tie theorems are checked against THIS tree
         out["error"] = str(e)
-        return out
+        try:
+            from . import py2lean
+            files = {"VivModel/Gen/Src.lean": py2lean.render_src()}
+        except Exception:
+            return out
     differing = [rel for rel, content in files.items()
                  if not ((paths.LEAN / rel).exists() and (paths.LEAN / rel).read_text() == content)]
     if not differing:
